@@ -20,7 +20,7 @@ Rec == ndJsonDeserialize(IOEnv.TRACE)
 N   == Len(Rec)
 Starts == {i \in 1..N : Rec[i].e = "crun"}
 
-ASSUME TLCSet(1, {})
+ASSUME TLCSet(1, {}) /\ TLCSet(2, {})
 
 VARIABLES l, h, cs, pend, lind
 vars == <<l, h, cs, pend, lind>>
@@ -38,8 +38,11 @@ RetLine(c) == CHOOSE i \in l..N : Rec[i].e = "ret" /\ Rec[i].c = c /\ \A j \in l
 Merged(inv, ret) == [inv EXCEPT !.e = "cmd"] @@ [r |-> ret.r, panic |-> ret.panic, dec |-> "frame",
                                                  present |-> <<>>, bytes |-> 0, usage |-> ""]
 
+(* with the eviction policy on, the contract has no notion of an eviction racing a command: such histories *)
+(* are only required to complete (C16) and to respect the memory bound at quiescence (C14)               *)
+Relaxed == Rec[h].policy = "random"
 Setup == /\ InHist /\ E.e = "cmd"
-         /\ LET j == JudgeAll(cs, E) IN j.tags = {} /\ cs' = j.sts
+         /\ LET j == JudgeAll(cs, E) IN (j.tags = {} \/ Relaxed) /\ cs' = j.sts
          /\ l' = l + 1 /\ UNCHANGED <<h, pend, lind>>
 Tick1 == /\ InHist /\ E.e = "tick"
          /\ cs' = TickAll(cs, E.to) /\ l' = l + 1 /\ UNCHANGED <<h, pend, lind>>
@@ -49,11 +52,17 @@ Invoke == /\ InHist /\ E.e = "inv"
 Lin(c) == /\ InHist /\ c \in DOMAIN pend /\ c \notin lind
           /\ LET j == JudgeAll(cs, Merged(pend[c], Rec[RetLine(c)])) IN j.tags = {} /\ cs' = j.sts
           /\ lind' = lind \cup {c} /\ UNCHANGED <<l, h, pend>>
-Return == /\ InHist /\ E.e = "ret" /\ E.c \in lind
+Return == /\ InHist /\ E.e = "ret" /\ (E.c \in lind \/ Relaxed)
           /\ pend' = [d \in DOMAIN pend \ {E.c} |-> pend[d]]
           /\ lind' = lind \ {E.c}
           /\ l' = l + 1 /\ UNCHANGED <<h, cs>>
 
+RetOfClient(c, hh) == LET i == CHOOSE i \in hh..N : Rec[i].e = "ret" /\ Rec[i].c = c IN Rec[i]
+Conforms(x, fin, hh) ==
+    /\ Len(fin.sched) = Len(x.order)
+    /\ \A i \in 1..Len(fin.sched) : fin.sched[i].c = x.order[i] /\ fin.sched[i].site = x.sites[i]
+    /\ \A c \in 1..Len(x.resp) : LET r == RetOfClient(c, hh).r IN
+                                   Len(r) = Len(x.resp[c]) /\ \A i \in 1..Len(r) : r[i].st = x.resp[c][i]
 RECURSIVE ReadsOK(_, _, _)
 ReadsOK(cands, gets, i) == IF i > Len(gets) THEN TRUE
                            ELSE LET j == JudgeAll(cands, gets[i]) IN j.tags = {} /\ ReadsOK(j.sts, gets, i + 1)
@@ -61,14 +70,16 @@ ReadsOK(cands, gets, i) == IF i > Len(gets) THEN TRUE
 BoundOK(e) == Rec[h].policy # "random" \/ e.bytes <= Rec[h].L + Rec[h].slack
 Final == /\ InHist /\ E.e = "final" /\ DOMAIN pend = {} /\ lind = {}
          /\ E.outcome = "Complete"
-         /\ ReadsOK(cs, E.gets, 1)
+         /\ (Relaxed \/ ReadsOK(cs, E.gets, 1))
          /\ BoundOK(E)
          /\ TLCSet(1, TLCGet(1) \cup {h})
+         \* conformance to the MemcConc model (replayed TLC schedules): same steps in the same order, same statuses
+         /\ IF "expect" \in DOMAIN Rec[h] /\ ~Conforms(Rec[h].expect, E, h) THEN TLCSet(2, TLCGet(2) \cup {h}) ELSE TRUE
          /\ l' = l + 1 /\ UNCHANGED <<h, cs, pend, lind>>
 
 Next == Setup \/ Tick1 \/ Invoke \/ Return \/ Final \/ \E c \in DOMAIN pend : Lin(c)
 Spec == Init /\ [][Next]_vars
 
-Report == PrintT("RESULT " \o ToJson([lines |-> N, histories |-> Cardinality(Starts), accepted |-> TLCGet(1),
+Report == PrintT("RESULT " \o ToJson([lines |-> N, histories |-> Cardinality(Starts), accepted |-> TLCGet(1), drift |-> TLCGet(2),
                                       violations |-> <<>>, coverage |-> <<>>, notes |-> <<>>]))
 =============================================================================
